@@ -6,8 +6,37 @@ COMMON_ASSUMPTIONS = [
     'usize is 64 bit',
 ]
 
+KANI_CONFIGS = {
+    # std build of the crate (default features) with hooks
+    'std': dict(name='std', cargo_flags=['--features', 'verif-hooks'], solver='minisat'),
+    # no_std build: hashbrown + libm
+    'nostd': dict(name='nostd', cargo_flags=['--no-default-features', '--features', 'hashbrown,libm,verif-hooks'], solver='minisat',
+                  thorough_only=False),
+}
+
+SHIM_ASSUMPTIONS = [
+    'HashMap is replaced under cfg(all(kani, feature="verif-hooks")) by /verif/kani/vmap.rs, an executable rendering of its assumed contract '
+    '(association list, lookups compare every stored key, nondeterministic iteration order, hasher never consulted); '
+    'the quantifier over BuildHashers/collisions is therefore discharged by assumption on std/hashbrown, not verified',
+    'state builders (verif_from_parts), abstract views (verif_abs), audits (verif_wf) and spec functions in /verif/kani are trusted; '
+    'builder output is asserted well-formed and equal to the intended view in every harness',
+    'keys and values instantiated as u8 (plus drop-tracked ids and Box<u8>/[u8;2] keys where stated); String keys are not instantiated',
+    'CBMC has no aliasing (Stacked/Tree Borrows) model and treats reads of uninitialised memory as nondeterministic values',
+]
+
 UNITS = {
     'V-ROW': dict(engine='verus', overlay='v_row.py'),
+    'K-PR': dict(engine='kani', files=['harness_lib.rs'], module={'harness_lib.rs': 'verif_hooks::harness'},
+                 n=dict(quick=2, thorough=3), bound='none (loop-free, payloads K=u8, V=u16 fully symbolic)',
+                 functions=[dict(function='PutResult::{eq, clone, Copy}', file='src/lib.rs', line=0, props=['C12'])],
+                 assumptions=['PutResult impls are parametric in K, V (they only call ==/clone on payloads): checked for K=u8, V=u16']),
+    'K-RAW': dict(engine='kani', files=['harness_raw.rs'], module={'harness_raw.rs': 'lru::raw::verif_hooks::harness'},
+                  n=dict(quick=2, thorough=3), bound='list length <= {N}, capacity <= {N} (history length unbounded: arbitrary well-formed pre-state)',
+                  timeout=dict(quick=900, thorough=3600),
+                  functions=[dict(function='RawLRU::' + f, file='src/lru/raw.rs', line=0, props=['C01', 'C02', 'C03', 'C05', 'C06', 'C12', 'C13'])
+                             for f in ['put', 'capturing_put', 'replace_or_create_node', 'get', 'get_', 'get_mut', 'get_mut_', 'peek', 'peek_', 'peek_mut', 'peek_mut_',
+                                       'contains', 'remove', 'attach', 'detach', 'len', 'cap', 'is_empty']],
+                  assumptions=SHIM_ASSUMPTIONS),
 }
 
 def all_units(P):
@@ -19,6 +48,7 @@ HOOKS_ADD_ONLY = False
 NOTES = 'See DESIGN.md. Exit 2 from a check means undecided (lost anchor, tool error, timeout, vacuity guard), never an alarm.'
 
 PROPERTIES = {
+    'C12': dict(level='proof', units=['K-PR', 'K-RAW'], level_text='(under construction)', level_note='see evidence', technique='contract harnesses (Kani)'),
     'C05': dict(level='proof', units=['V-ROW'],
                 level_text='(under construction) Verus overflow/index/shift obligations on the extracted LFU arithmetic',
                 level_note='see evidence trusted_base', technique='contract-based deductive verification (Verus on extracted real functions)'),
